@@ -455,7 +455,7 @@ def sc_paramiko(spec, can, res, R):
         PT._ParamikoTransport, PT.Socket = old
         if keyfile:
             os.unlink(keyfile)
-    res.advisory.append(("library saw password", seen.get("password") == can["PW"].full))
+        res.advisory.append(("library saw password", seen.get("password") == can["PW"].full))
 
 
 def sc_asyncssh(spec, can, res, R):
@@ -491,7 +491,7 @@ def sc_asyncssh(spec, can, res, R):
             R.do(conn.open)
     finally:
         AT.connect = old
-    res.advisory.append(("library saw password", seen.get("password") == can["PW"].full))
+        res.advisory.append(("library saw password", seen.get("password") == can["PW"].full))
 
 
 def sc_real_timeout(spec, can, res, R):
